@@ -314,6 +314,7 @@ func (r *RefCount[T]) Access(ctx context.Context, cb func(ctx context.Context, v
 				case <-ctx.Done():
 				case <-cbCtx.Done():
 				case <-waitCh:
+					verifPoint(5, cbCtx)
 					cbCancel()
 				}
 			}()
